@@ -282,6 +282,66 @@ def run_miri(ctx, cases, corr, per_tag=12, limit=700):
     corr["stats"]["miri:cases"] = total
 
 
+ALL_PIDS = [f"C{i:02d}" for i in range(1, 20)]
+# which properties do NOT depend on a group of translated tables (everything else does)
+INDEPENDENT = {
+    "arb": set(ALL_PIDS) - {"C19"},
+    "dispatch": set(ALL_PIDS) - {"C10"},
+    "op": {"C02", "C03", "C07", "C08", "C09", "C13", "C14", "C15", "C17", "C18", "C19"},
+    "resp": {"C01", "C04", "C06", "C07", "C08", "C09", "C11", "C12", "C13", "C14", "C18", "C19"},
+    "status": {"C07", "C08", "C09", "C13", "C14", "C19"},
+    "bitflags": {"C01", "C04", "C05", "C06", "C08", "C09", "C10", "C11", "C12", "C13", "C14", "C17", "C19"},
+    "consts": {"C19"},
+    "fingerprints": set(),
+    "gating": set(ALL_PIDS) - {"C16"},
+}
+
+
+def reachable_types(schema, prefixes):
+    seen = set()
+
+    def visit(t):
+        if "named" in t:
+            k = t["named"]
+            if k in seen:
+                return
+            seen.add(k)
+            t = schema["types"].get(k, {})
+        if isinstance(t.get("elem"), dict):
+            visit(t["elem"])
+        elif isinstance(t.get("elem"), str):
+            visit({"named": t["elem"]})
+        for a in t.get("untagged", []):
+            visit(a["ty"])
+        for f in t.get("fields", []):
+            visit(f["ty"])
+
+    for role, key in schema["roles"].items():
+        if role.startswith(prefixes):
+            visit({"named": key})
+    return seen
+
+
+def relevant_errors(pid, errors, baseline):
+    """the translation failures that leave *this* property undecided"""
+    out = []
+    for aspect, msg in sorted(errors.items()):
+        if aspect == "*":
+            out.append((aspect, msg))
+        elif aspect.startswith("type:"):
+            key = aspect[5:]
+            if pid in ("C08", "C09", "C11", "C19"):
+                continue
+            if baseline is not None and pid in ("C01", "C05", "C06", "C10", "C12", "C13", "C14", "C02", "C17", "C07"):
+                pre = {"C02": ("resp",), "C17": ("resp",), "C07": ("adExt",)}.get(pid, ("req",))
+                if not any(key in reachable_types(sj, pre) for sj in baseline["schemas"].values()):
+                    continue
+            out.append((aspect, msg))
+        elif pid not in INDEPENDENT.get(aspect, set()):
+            out.append((aspect, msg))
+    return out
+
+
 def match_known(known, pid, case):
     for f in known.get("findings", []):
         if f["property"] != pid:
